@@ -71,12 +71,20 @@ def sweep_impl(rep, tier, seed):
             rep.case(("conv", n, m))
             inp = dict(n=n, m=m, seed=seed)
             tol = 2e-4 * max(1.0, float(np.abs(a).max() * np.abs(b).max()) * min(n, m))
-            got = kernels.fftconvolve(a, b)
+            try:
+                got = kernels.fftconvolve(a, b)
+            except Exception as exc:  # noqa: BLE001  (numba-compiled: the trace has no library frame)
+                rep.fail("fftconvolve raised for valid inputs", function="core/kernels.py::fftconvolve", input=inp, observed=repr(exc)[:160])
+                continue
             ref = np.convolve(a.astype(np.float64), b.astype(np.float64), mode="full")
             rep.check(len(got) == n + m - 1 and bool(np.all(np.abs(got - ref) <= tol)), "fftconvolve is not the full linear convolution",
                       function="core/kernels.py::fftconvolve", input=inp, observed=len(got), required=n + m - 1)
             ts = TimeSeries(a.copy(), hdr(n))
-            cor = ts.correlate(b.copy())
+            try:
+                cor = ts.correlate(b.copy())
+            except Exception as exc:  # noqa: BLE001
+                rep.fail("correlate raised for valid inputs", function="timeseries.py::TimeSeries.correlate", input=inp, observed=repr(exc)[:160])
+                continue
             refc = np.correlate(a.astype(np.float64), b.astype(np.float64), mode="full")  # lags -(m-1) .. n-1
             rep.check(len(cor.data) == n + m - 1 and cor.header.nsamples == n + m - 1 and bool(np.all(np.abs(cor.data - refc) <= tol)),
                       "correlate is not the full correlation at lags -(m-1)..n-1", function="timeseries.py::TimeSeries.correlate", input=inp,
